@@ -8,6 +8,7 @@ from .. import gen_types as gt
 from .. import vjudge, wire
 from ..wire import Obj, Num, to_text
 
+HARNESS_FILES = gt.harness_files
 ID = "C10"
 N_QUICK = 6000
 N_THOROUGH = 100000
